@@ -175,6 +175,8 @@ type storeKind struct {
 	Impl   string `json:"impl"` // badger | mock
 	Typed  bool   `json:"typed"`
 	Prefix string `json:"prefix"`
+	// Bare: no OnChange/BeforeChange listener is registered on the store.
+	Bare bool `json:"bare,omitempty"`
 }
 
 func (k storeKind) String() string {
